@@ -50,7 +50,7 @@ var c05Subsets = [][]string{{"local"}, {"ntlm"}, {"kerberos"}, {"openid", "local
 	{"basic"}, {"openid", "basic"}} // "basic" is the other spelling of the local mechanism
 
 var c05Auths = []string{"absent", "empty", "bare:NTLM", "bare:Negotiate", "bare:Basic", "short:NTL", "short:Basi", "short:Negotiat", "lower:ntlm", "lower:basic", "junk", "bearer",
-	"basic-right", "basic-right", "basic-wrong-pass", "basic-unknown-user", "basic-empty-pass", "basic-undecodable", "basic-nocolon", "basic-two-lines-junk-first", "basic-two-lines-right-first",
+	"basic-right", "basic-right", "basic-right-scheme-name-inside", "basic-wrong-pass", "basic-unknown-user", "basic-empty-pass", "basic-undecodable", "basic-nocolon", "basic-two-lines-junk-first", "basic-two-lines-right-first",
 	"ntlm-right", "ntlm-right", "ntlm-wrong-pass", "ntlm-unknown-user", "ntlm-type3-first", "ntlm-type3-other-conn", "ntlm-again-after-success", "ntlm-again-after-success", "ntlm-unknown-user-empty-pass", "in-for-another-users-out", "in-for-another-users-out", "ntlm-unfinished-with-web-session", "ntlm-unfinished-with-web-session", "ntlm-type1-only", "ntlm-garbage", "negotiate-ntlm-right", "negotiate-garbage", "xNTLM-prefix", "krb-valid", "krb-valid", "krb-foreign-key"}
 
 func genC05(t *rapid.T) c05Case {
@@ -58,6 +58,9 @@ func genC05(t *rapid.T) c05Case {
 	for i, n := 0, rapid.IntRange(1, 8).Draw(t, "nreq"); i < n; i++ {
 		r := c05Req{Transport: genKind(t), Method: "RDG_OUT_DATA", Auth: rapid.SampledFrom(c05Auths).Draw(t, "auth"), User: strconv.Itoa(rapid.IntRange(1, 9).Draw(t, "user")),
 			Probe: rapid.SampledFrom([]string{"own", "other"}).Draw(t, "probe")}
+		if r.Auth == "basic-right-scheme-name-inside" {
+			r.User = "9"
+		}
 		if rapid.IntRange(0, 2).Draw(t, "reuseID") == 0 {
 			r.ConnID = "{11111111-2222-3333-4444-555555555555}"
 		}
@@ -76,7 +79,13 @@ var (
 	c05Pool = map[string]*gwproc.Inst{}
 )
 
-func c05Password(user string) string { return "pw-" + user }
+// user 9's password makes the base64 text of its Basic credentials ("OTphYmNTLMOp") contain the name of another scheme
+func c05Password(user string) string {
+	if user == "9" {
+		return "abcS,\u00e9"
+	}
+	return "pw-" + user
+}
 
 func c05Auth() *authsvc.Service {
 	c05Once.Do(func() {
@@ -330,7 +339,7 @@ func runC05(c c05Case) *Violation {
 			one("\x7f?? what")
 		case "bearer":
 			one("Bearer abcdef")
-		case "basic-right":
+		case "basic-right", "basic-right-scheme-name-inside":
 			one(basicHeader(r.User, pass))
 			expectReach = local
 		case "basic-wrong-pass":
